@@ -8,6 +8,7 @@ import (
 	"io"
 	"reflect"
 	"strings"
+	"unicode/utf8"
 
 	"github.com/bytedance/sonic"
 	"github.com/bytedance/sonic/encoder"
@@ -71,7 +72,8 @@ func drawC17(t *rapid.T) Case {
 	}
 	n := rapid.IntRange(0, 5).Draw(t, "nvalues")
 	for i := 0; i < n; i++ {
-		v := string(bytes.TrimSpace(gen.ValidDoc(t, gen.DocOpt{Str: gen.StrOpt{MaxPieces: 3, LoneSurr: true}, MaxDepth: 2, Num: gen.NumOpt{}})))
+		// invalid UTF-8 inside strings: both configurations used here validate strings, so the decoder works on a repaired copy
+		v := string(bytes.TrimSpace(gen.ValidDoc(t, gen.DocOpt{Str: gen.StrOpt{MaxPieces: 3, LoneSurr: true, InvalidUTF8: rapid.IntRange(0, 2).Draw(t, "badutf8") == 0}, MaxDepth: 2, Num: gen.NumOpt{}})))
 		var probe interface{}
 		if json.Unmarshal([]byte(v), &probe) != nil {
 			v = `[1.5,"x",{"k":null}]`
@@ -263,7 +265,8 @@ func (c *C17Case) Run() (res stat.Result) {
 				}
 				return fail("value #%d = %v, want %v (%s): %s", got, val, want, clipS(c.Values[got]), diff)
 			}
-		} else if dd := ref.TokensEqual([]byte(c.Values[got]), raw, false); dd != "" {
+		} else if dd := ref.TokensEqual([]byte(c.Values[got]), raw, false); dd != "" && (utf8.ValidString(c.Values[got]) || ref.TokensEqual(ref.CorrectUTF8InStrings([]byte(c.Values[got])), raw, false) != "") {
+			// (a raw capture of text with invalid UTF-8 may be the original or the repaired copy)
 			return fail("value #%d raw = %s, want %s: %s", got, clipB(raw), clipS(c.Values[got]), dd)
 		}
 		if o, ok := dec.(offsetter); ok {
@@ -337,6 +340,9 @@ func (c *C17Case) classes(res *stat.Result, data []byte, ends []int) {
 	res.Classes = append(res.Classes, "tail:"+c.TailKind, fmt.Sprintf("nvalues=%d", len(c.Values)))
 	if inToken {
 		res.Classes = append(res.Classes, "boundary-in-token")
+	}
+	if !utf8.Valid(data) {
+		res.Classes = append(res.Classes, "invalid-utf8-in-stream")
 	}
 	if c.FaultAt >= 0 {
 		res.Classes = append(res.Classes, "reader-fault")
